@@ -502,8 +502,12 @@ func c03GenResults(r *lib.Rng, sb *strings.Builder, keys, pool [][]byte, cur int
 }
 
 func c03GenOp(r *lib.Rng, tier string) lib.Case {
-	// (65535 key groups are left to store mode: every redeploy scans each key group's timers once)
+	// every redeploy scans each key group's timers once, so cases with 65535 key groups run without restarts
 	kgc := lib.Pick(r, []int{1, 2, 7, 256})
+	big := r.Chance(1, 8)
+	if big {
+		kgc = 65535
+	}
 	b := r.Range(1, 8)
 	c := lib.Case{Header: fmt.Sprintf("M C03 %d op 0 %d %d %d", kgc, lib.Pick(r, []int{4200, 6000, 20000}), lib.Pick(r, []int{1, 5000}), b)}
 	pool := c03Pool(r)
@@ -511,8 +515,9 @@ func c03GenOp(r *lib.Rng, tier string) lib.Case {
 	if tier == "thorough" {
 		nb = r.Range(15, 60)
 	}
-	cur := int64(0) // the generator's own watermark clock
-	ckpts := 0
+	cur := int64(0)    // the generator's own watermark clock
+	ckpts := 0         // checkpoint ids are 1,2,.. in order of the `ckpt` ops
+	var retained []int // ids a restart may name: a restore keeps only the restored one
 	for i := 0; i < nb; i++ {
 		var sb strings.Builder
 		if r.Chance(1, 5) {
@@ -547,16 +552,30 @@ func c03GenOp(r *lib.Rng, tier string) lib.Case {
 		case 4, 5:
 			c.Ops = append(c.Ops, "ckpt")
 			ckpts++
+			retained = append(retained, ckpts)
 		case 6:
-			if ckpts > 0 {
-				// redeploy from the latest checkpoint: what was returned after it is gone, the rest stays
-				c.Ops = append(c.Ops, lib.Pick(r, []string{"restart", "restart new"}))
+			if len(retained) > 0 && !big {
+				// redeploy from a retained checkpoint: what was returned after it is gone, the rest stays
+				op := lib.Pick(r, []string{"restart", "restart new"})
+				if r.Chance(1, 2) {
+					// an older retained checkpoint (the one the job published), not the operator's latest
+					j := r.Intn(len(retained))
+					op += fmt.Sprintf(" %d", retained[j])
+					retained = retained[j : j+1]
+					c.Tags = append(c.Tags, "restore-older")
+				}
+				if !strings.Contains(op, " ") || strings.HasSuffix(op, "new") {
+					retained = retained[len(retained)-1:] // restored the latest
+				}
+				c.Ops = append(c.Ops, op)
 				c.Tags = append(c.Tags, "restore")
 			}
 		case 7:
-			if ckpts > 0 && r.Chance(1, 2) {
-				c.Ops = append(c.Ops, "ckpt", lib.Pick(r, []string{"restart", "restart new"}))
+			if len(retained) > 0 && !big && r.Chance(1, 2) {
 				ckpts++
+				retained = append(retained, ckpts)
+				retained = retained[len(retained)-1:]
+				c.Ops = append(c.Ops, "ckpt", lib.Pick(r, []string{"restart", "restart new"}))
 				c.Tags = append(c.Tags, "restore")
 			}
 		}
@@ -598,6 +617,13 @@ func c03Fixed() []lib.Case {
 			"batch ev 6b ev 6c res 6b t 5 t 9 ns 61 p 01 aa res 6c t 5 ns 61 p 01 cc res 6d t 7", "ckpt",
 			"batch ev 6b res 6b t 30 ns 61 d 01 p 02 bb", "rot", "restart", "wm 8 res 6b ns 62 p - 01", "batch ev 6b ev 6c",
 			"ckpt", "batch ev 6c res 6c ns 61 d 01", "restart new", "wm 9", "batch ev 6c ev 6b", "wm 100"}},
+		{Header: "M C03 1 op 0 4200 1 2", Tags: []string{"op", "restore-older"}, Ops: []string{ // restore of an older retained checkpoint
+			"batch ev 6b res 6b t 7 ns 61 p 01 02", "ckpt", "batch ev 6b res 6b ns 61 d 01 p 03 04", "rot", "ckpt",
+			"batch ev 6b res 6b ns 61 p 05 06", "restart 1", "wm 9", "batch ev 6b res 6b ns 62 p - -", "ckpt", "restart new 2",
+			"batch ev 6b res 6b ns 61 d 01", "restart 1", "batch ev 6b", "restart new 3", "batch ev 6b"}},
+		{Header: hdr(300), Tags: []string{"guard256"}, Ops: []string{ // the namespace guard on the real code: uint8(len) wraps
+			"apply 6b ns 6e6e6e6e6e6e6e6e6e6e6e6e6e6e6e6e6e6e6e6e6e6e6e6e6e6e6e6e6e6e6e6e6e6e6e6e6e6e6e6e6e6e6e6e6e6e6e6e6e6e6e6e6e6e6e6e6e6e6e6e6e6e6e6e6e6e6e6e6e6e6e6e6e6e6e6e6e6e6e6e6e6e6e6e6e6e6e6e6e6e6e6e6e6e6e6e6e6e6e6e6e6e6e6e6e6e6e6e6e6e6e6e6e6e6e6e6e6e6e6e6e6e6e6e6e6e6e6e6e6e6e6e6e6e6e6e6e6e6e6e6e6e6e6e6e6e6e6e6e6e6e6e6e6e6e6e6e6e6e6e6e6e6e6e6e6e6e6e6e6e6e6e6e6e6e6e6e6e6e6e6e6e6e6e6e6e6e6e6e6e6e6e6e6e6e6e6e6e6e6e6e6e6e6e6e6e6e6e6e6e6e6e6e6e6e6e6e6e6e6e6e6e6e6e6e6e6e6e6e6e6e6e6e6e6e6e6e6e6e6e6e6e6e6e6e6e6e6e6e6e6e6e6e6e6e6e p 01 aa", "get 6b", "apply 6b ns - d 6e6e6e6e6e6e6e6e6e6e6e6e6e6e6e6e6e6e6e6e6e6e6e6e6e6e6e6e6e6e6e6e6e6e6e6e6e6e6e6e6e6e6e6e6e6e6e6e6e6e6e6e6e6e6e6e6e6e6e6e6e6e6e6e6e6e6e6e6e6e6e6e6e6e6e6e6e6e6e6e6e6e6e6e6e6e6e6e6e6e6e6e6e6e6e6e6e6e6e6e6e6e6e6e6e6e6e6e6e6e6e6e6e6e6e6e6e6e6e6e6e6e6e6e6e6e6e6e6e6e6e6e6e6e6e6e6e6e6e6e6e6e6e6e6e6e6e6e6e6e6e6e6e6e6e6e6e6e6e6e6e6e6e6e6e6e6e6e6e6e6e6e6e6e6e6e6e6e6e6e6e6e6e6e6e6e6e6e6e6e6e6e6e6e6e6e6e6e6e6e6e6e6e6e6e6e6e6e6e6e6e6e6e6e6e6e6e6e6e6e6e6e6e6e6e6e6e6e6e6e6e6e6e6e6e6e6e6e6e6e6e6e6e6e6e6e6e6e6e6e6e6e6e6e6e6e01", "get 6b",
+			"apply 6b ns 6f6f6f6f6f6f6f6f6f6f6f6f6f6f6f6f6f6f6f6f6f6f6f6f6f6f6f6f6f6f6f6f6f6f6f6f6f6f6f6f6f6f6f6f6f6f6f6f6f6f6f6f6f6f6f6f6f6f6f6f6f6f6f6f6f6f6f6f6f6f6f6f6f6f6f6f6f6f6f6f6f6f6f6f6f6f6f6f6f6f6f6f6f6f6f6f6f6f6f6f6f6f6f6f6f6f6f6f6f6f6f6f6f6f6f6f6f6f6f6f6f6f6f6f6f6f6f6f6f6f6f6f6f6f6f6f6f6f6f6f6f6f6f6f6f6f6f6f6f6f6f6f6f6f6f6f6f6f6f6f6f6f6f6f6f6f6f6f6f6f6f6f6f6f6f6f6f6f6f6f6f6f6f6f6f6f6f6f6f6f6f6f6f6f6f6f6f6f6f6f6f6f6f6f6f6f6f6f6f6f6f6f6f6f6f6f6f6f6f6f6f6f6f6f6f6f6f6f6f6f6f6f6f6f6f6f6f6f6f6f6f6f6f6f6f6f6f6f6f6f6f6f6f6f6f6f6f6f6f6f6f6f6f6f6f6f6f6f6f6f6f6f6f6f6f6f6f6f6f6f6f6f6f6f6f6f6f6f6f6f6f6f6f6f6f6f6f6f6f6f p 02 bb ns 61 p - -", "get 6b", "rot", "wait", "get 6b"}},
 		{Header: "M C03 2 op 0 4200 1 3", Tags: []string{"D4", "op"}, Ops: []string{
 			"batch ev 6b ev 6c ev 6b res 6b t 5 ns 61 p 01 aa res 6c ns 61 p 01 cc", "rot", "wait",
 			"batch ev 6b res 6b ns 61 d 01", "batch ev 6b ev 6c", "rot", "wait", "ckpt", "batch ev 6c ev 6b ev 6c"}},
